@@ -84,11 +84,16 @@ func value(rng *rand.Rand, n, r int, compressed, encrypted bool) obj.Value {
 		}
 	}
 	refs := []obj.Ref{{Num: uint32(n)}, {Num: 1, Gen: 1}, {Num: 2}, {Num: 3, Gen: 65535}, {Num: 900}}
-	k := rng.Intn(8)
-	if compressed && k == 7 {
+	k := rng.Intn(9)
+	if compressed && k >= 7 {
 		k = 0
 	}
 	switch k {
+	case 8:
+		// the value of the object is itself a reference (to an object that
+		// does not exist: the number tells the revision); never in an object
+		// stream (7.5.7: an object there shall not consist solely of a reference)
+		return obj.Ref{Num: uint32(100000 + 1000*r + n)}
 	case 0:
 		return obj.Dict{"V": mark, "X": ser.RandomValue(rng, 2, refs)}
 	case 1:
